@@ -678,6 +678,11 @@ func registerMisc() {
 		"log.Printf", "log.Println", "log.Print"} {
 		intrinsics[n] = noop
 	}
+	// time.Sleep: the passage of time is not modelled; sleeping is a scheduling point
+	intrinsics["time.Sleep"] = func(m *Machine, th *Thread, fn *ssa.Function, a []Value, site ssa.Instruction) Value {
+		m.yield(th)
+		return nil
+	}
 	intrinsics["runtime/debug.Stack"] = func(m *Machine, th *Thread, fn *ssa.Function, a []Value, site ssa.Instruction) Value {
 		return m.makeSlice(types.Typ[types.Byte], 0, 0)
 	}
